@@ -330,7 +330,7 @@ CHECKS = {
     "C17": dict(
         pkg="c17", race=True, shards=(8, 16), timeout_s=(900, 7200),
         technique="Go race detector (-race, halt_on_error=0, log to file) over API-level stress of every exported method; reports filtered to library frames and de-duplicated by access-site pair; runtime fatals (concurrent map access) caught from the child's output",
-        level_text="One stress scenario per type family (8 limits incl. wrappers, 4 strategies with their partitions and dynamic add/remove, default / "
+        level_text="Constructors are hammered too: goroutines build queue limiters (all orderings), limits, strategies, default limiters and pools from ONE shared configuration value and ONE shared tag slice with spare capacity (scenario ctor.shared-config-and-tags). One stress scenario per type family (8 limits incl. wrappers, 4 strategies with their partitions and dynamic add/remove, default / "
                    "blocking / deadline / queue limiters and their listeners, pools, 7 measurement primitives, both metric registries with 200us polling, "
                    "independent Gradient / Gradient2 / Vegas instances side by side with limits on both sides of the pre-computed tables, strategies rebuilt "
                    "from partitions other goroutines are reading, and an integrated limiter+limit+registry): 4-16 goroutines call every exported method (accessors, String, SetLimit, NotifyOnChange, "
@@ -338,7 +338,7 @@ CHECKS = {
                    "thorough 2000x) because races are schedule dependent; verif yield points are on in half of the runs. A report counts only if a frame "
                    "lies in the library; each distinct pair of innermost library functions is one violation signature. Exploration: it shows absence of "
                    "races only on the interleavings and paths exercised (per-method call counts are in the evidence).",
-        require=["scenario_runs/limit.Vegas", "scenario_runs/strategy.Predicate", "scenario_runs/limiter.Queue", "scenario_runs/registry.gometrics",
+        require=["scenario_runs/ctor.shared-config-and-tags", "scenario_runs/limit.Vegas", "scenario_runs/strategy.Predicate", "scenario_runs/limiter.Queue", "scenario_runs/registry.gometrics",
                  "scenario_runs/registry.datadog", "scenario_runs/registry.gometrics.running", "scenario_runs/registry.datadog.running",
                  "scenario_runs/measurements.WindowlessMovingPercentile", "scenario_runs/pool",
                  "calls/strategy.Predicate/Partition.String", "calls/registry.gometrics/RegisterDistribution+AddSample", "calls/limit.Settable/SetLimit"],
